@@ -27,26 +27,23 @@ def c06(tier):
     def own(d):
         return True   # blamed only if the twin execution without the reopen events is accepted
     return PE.generic("C06", tier, profiles=["restart"], own=own, twin_flag="ro", n_quick=500, n_thorough=4000,
-                      gen_kwargs={"safe_first": True},
                       extra_assumptions=[
                           "blame rule: a rejected execution counts against C06 only if the same execution without its "
                           "reopen events is accepted (restart invisible)",
                           "clean shutdown = dropping the instance; reopen in the same process and in a fresh process "
                           "(with the wall clock moved forward, by 0 and backward through the cfg(walrus_verif) clock hook)",
-                          "generated histories avoid the trigger of known finding KF-ENG-EMPTY-INITIAL-BLOCK (a topic's first "
-                          "entry larger than a block); that input is replayed from corpus/ and reported as KNOWN-FINDING"])
+                          "the former known finding about block-id based tail positions is fixed; its reproducer stays in corpus/ as a regression case"])
 
 
 def c17(tier):
     def own(d):
         return d["ev"] == "is_clean"
     return PE.generic("C17", tier, profiles=["marker", "restart"], own=own, n_quick=500, n_thorough=4000,
-                      gen_kwargs={"safe_first": True},
                       extra_assumptions=["reopen happens at delays 0, 1 and 20 ms after the last call, in the same and in a new process"])
 
 
 def _c12_corpus(n, seed, cfgs):
-    return G.corpus("reclaim", "tiny", n, seed, cfgs=cfgs, prefix="rc_", safe_first=True, length=(25, 60))
+    return G.corpus("reclaim", "tiny", n, seed, cfgs=cfgs, prefix="rc_", length=(25, 60))
 
 
 def c12(tier):
@@ -107,7 +104,7 @@ def _c12_real_unlink(ck):
     behs = []
     for i in range(24):
         b = G.gen_behaviour(r, "reclaim", "tiny", "ul_%d" % i, {"backend": "fd", "mode": "strict", "pe": 1, "fsync": "ms1"},
-                            length=40, safe_first=True)
+                            length=40)
         # wait for a deletion cycle before the final drain, then reopen and drain again
         tail = [{"op": "sleep", "ms": 1600}]
         for t in b["cfg"]["topics"]:
